@@ -82,3 +82,87 @@ theorem encode_ok {f : VFile.File} {enc : Enc} (h : encode f = some enc) : Assem
 
 end Encode
 end KikiVerif
+
+namespace KikiVerif
+namespace Encode
+open Machine LR
+
+/-! ### the coded grammar is the declared grammar, names replaced by their ranks -/
+
+theorem mapM_get {α β : Type} (f : α → Option β) : ∀ (l : List α) (r : List β), l.mapM f = some r →
+    r.length = l.length ∧ ∀ (k : Nat) (x : α), l[k]? = some x → ∃ y, r[k]? = some y ∧ f x = some y := by
+  intro l
+  induction l with
+  | nil => intro r h; simp at h; subst h; exact ⟨rfl, by intro k x hk; simp at hk⟩
+  | cons x xs ih =>
+    intro r h
+    obtain ⟨y0, ys, h1, h2, rfl⟩ := mapM_option_cons f x xs r h
+    obtain ⟨hl, hget⟩ := ih ys h2
+    refine ⟨by simp [hl], ?_⟩
+    intro k x' hk
+    cases k with
+    | zero => simp at hk; subst hk; exact ⟨y0, by simp, h1⟩
+    | succ k => simp at hk; obtain ⟨y, hy, hf⟩ := hget k x' hk; exact ⟨y, by simpa using hy, hf⟩
+
+theorem idxOf_get {l : List Str} {a : Str} {i : Nat} (h : l.idxOf? a = some i) : l[i]? = some a := by
+  obtain ⟨hlt, hget, _⟩ := List.idxOf?_eq_some_iff.mp h
+  rw [List.getElem?_eq_getElem hlt, hget]
+
+/-- a coded symbol decodes to the symbol it came from -/
+def decodesTo (ts ns : List Str) : Ast.SymId → Sym Nat Nat → Prop
+  | .t i, .t a => ts[a]? = some i.name
+  | .n i, .n b => ns[b]? = some i.name
+  | _, _ => False
+
+theorem codeSym_decodes {ts ns : List Str} {s : Ast.SymId} {X : Sym Nat Nat} (h : codeSym ts ns s = some X) :
+    decodesTo ts ns s X := by
+  cases s with
+  | t i =>
+    simp only [codeSym] at h
+    cases hi : ts.idxOf? i.name with
+    | none => rw [hi] at h; cases h
+    | some k => rw [hi] at h; cases h; exact idxOf_get hi
+  | n i =>
+    simp only [codeSym] at h
+    cases hi : ns.idxOf? i.name with
+    | none => rw [hi] at h; cases h
+    | some k => rw [hi] at h; cases h; exact idxOf_get hi
+
+/-- **the name ↔ rank coding is faithful**: rule `j` of the coded grammar is rule `j` of the validated file with
+every name replaced by its index in the (strictly ascending, hence duplicate-free) sorted name list — so
+decoding the ranks gives back exactly the declared production; the coded start symbol decodes to the declared
+start symbol; `nT`, `nN` are the numbers of distinct declared terminal and nonterminal names -/
+theorem encode_faithful {f : VFile.File} {enc : Enc} (h : encode f = some enc) :
+    Oset.Sorted enc.tsorted ∧ Oset.Sorted enc.nsorted ∧
+    (∀ x, x ∈ enc.tsorted ↔ x ∈ f.tenum.variants.map (·.name)) ∧
+    (∀ x, x ∈ enc.nsorted ↔ x ∈ f.nonterminals.map (·.name)) ∧
+    enc.ctx.nT = enc.tsorted.length ∧ enc.ctx.nN = enc.nsorted.length ∧
+    enc.nsorted[enc.ctx.g.start]? = some f.start ∧
+    enc.ctx.g.rules.length = f.rules.length ∧
+    ∀ (j : Nat) (r : VFile.Rule), f.rules[j]? = some r → ∃ cr : Rule Nat Nat, enc.ctx.g.rules[j]? = some cr ∧
+      enc.nsorted[cr.lhs]? = some r.ctor.typeName ∧ cr.rhs.length = r.fieldset.syms.length ∧
+      ∀ (k : Nat) (s : Ast.SymId), r.fieldset.syms[k]? = some s →
+        ∃ X, cr.rhs[k]? = some X ∧ decodesTo enc.tsorted enc.nsorted s X := by
+  unfold encode at h
+  simp only at h
+  split at h
+  · rename_i rules start tdecl ndecl hrules hstart _ _
+    cases h
+    refine ⟨Oset.ofList_sorted _, Oset.ofList_sorted _, fun x => Oset.mem_ofList _ x, fun x => Oset.mem_ofList _ x,
+      rfl, rfl, idxOf_get hstart, (mapM_get _ _ _ hrules).1, ?_⟩
+    intro j r hj
+    obtain ⟨cr, hcr, hcode⟩ := (mapM_get _ _ _ hrules).2 j r hj
+    refine ⟨cr, hcr, ?_⟩
+    unfold codeRule at hcode
+    split at hcode
+    · rename_i lhs rhs hl hr
+      cases hcode
+      refine ⟨idxOf_get hl, (mapM_get _ _ _ hr).1, ?_⟩
+      intro k s hk
+      obtain ⟨X, hX, hc⟩ := (mapM_get _ _ _ hr).2 k s hk
+      exact ⟨X, hX, codeSym_decodes hc⟩
+    · cases hcode
+  · cases h
+
+end Encode
+end KikiVerif
